@@ -938,6 +938,9 @@ def computehash_rule(A, rule):
         rule.ob()
         rule.inst(f"_computehash: {norm(u)[:70]}")
         arg = u.args[0] if u.args else None
+        if arg is not None:
+            from .rules_common import expand_locals
+            arg = expand_locals(ch.node, arg)     # a temp that only names the converted element reads as the conversion itself
         inner = arg
         if isinstance(inner, ast.Call) and norm(inner.func).endswith("_cast_to_bytes") and (inner.args or len(inner.keywords) == 1):
             inner = inner.args[0] if inner.args else inner.keywords[0].value
